@@ -740,6 +740,10 @@ def nested_sweep(ctx, want):
             pk = res['panic']
             report('panic', pk['k'], '%s after %d instructions: %s panicked: %s' % (what0, pk['k'], 'the inner operation' if pk['in_handler']
                                                                                   else 'the outer operation (or the drain after it)', pk['message']))
+        elif not res['done'] and nested_run_one(cfg, kstart=max(1, res['begun'] or 1), timeout=90)['done']:
+            # the process was cut off by its time limit but the same boundaries run through when tried again: a starved machine
+            hits['unconfirmed-stall'] = hits.get('unconfirmed-stall', 0) + 1
+            res['done'] = True
         elif not res['done']:
             if res['rc'] == -9 or res['rc'] is None or res['rc'] == 124 or 'timeout' in str(res['rc']):
                 report('hang', res['begun'], '%s after %d instructions: the operation did not return (process killed after the time limit)'
